@@ -82,3 +82,65 @@ def always_calls(prog, fam, target):
                 good.add(f)
                 changed = True
     return good
+
+
+def families(prog, names):
+    """union of the private families (function + helpers it is split into) of the named functions"""
+    out = set()
+    for n in names:
+        if n in prog.fns:
+            out |= private_family(prog, n)
+    return out
+
+
+def _collect_syms(t, out):
+    stack = [t]
+    while stack:
+        x = stack.pop()
+        if not isinstance(x, tuple) or not x:
+            continue
+        if x[0] == 's':
+            out.add(x)
+        elif x[0] == 'o':
+            stack.extend(x[3:])
+        elif x[0] == 'agg':
+            stack.extend(x[2])
+        elif x[0] == 'snap':
+            stack.extend(v for _, v in x[2])
+            if x[1]:
+                stack.append(x[1])
+
+
+def register_write_requests_reach_if(facts, prog, callees):
+    """IO::set_byte: on every path that calls one of `callees` (device functions that return the interrupt requests a
+    register write produces), the returned value is merged into the IF store.  -> {callee: None | 'what is wrong'}"""
+    from .. import absint
+    from ..terms import S
+    iofam = private_family(prog, IO_SET)
+    opaque = [n for n in prog.fns if n.startswith('devices::') and n not in iofam and
+              not n.startswith('devices::interrupts::')]
+    ip = absint.Interp(facts, opaque=opaque)
+    st = ip.new_state()
+    io = ip.arg_object(st, 'io')
+    rs = ip.run(IO_SET, [io, S(16, 'addr'), S(8, 'value')], st)
+    out = {c: 'IO::set_byte never calls it' for c in callees}
+    for r in rs:
+        calls = [e for e in r.state.events if e[0] == 'call' and e[1] in callees]
+        if not calls:
+            continue
+        for c in calls:
+            if r.status != 'ok':
+                out[c[1]] = 'the path through it does not complete (%s)' % r.status
+                continue
+            ret = c[3]
+            stores = [e for e in r.state.events if e[0] == 'store' and 'interrupt_flag' in str(e[2])]
+            have = set()
+            for e in stores:
+                _collect_syms(e[3], have)
+            hit = any(y == ret or (y[0] == 's' and ret[0] == 's' and y[2].startswith(ret[2])) for y in have)
+            if hit:
+                if out[c[1]] == 'IO::set_byte never calls it':
+                    out[c[1]] = None
+            else:
+                out[c[1]] = 'the requests it returns are dropped: they are not merged into IF (interrupt_flag)'
+    return out
